@@ -42,6 +42,13 @@ add("C14", "E1", "property-based testing: reference write-out transformation + e
     "Exploration: generated member sequences / trait instruction lists with random non-conflicting repeat, skip_repeat, stop_repeat placements; a reference write_out implementing the property's two sentences on the AST must expand to byte-identical output.",
     TB + "; write_out (gen_repeat.rs) is the reference model", "DESIGN.md 3/C14")
 
+add("C10", "E1", "property-based testing: generated token trees, independent substitution oracle (contiguous subsequence)",
+    "Exploration: random token trees containing @ and ~ at every nesting depth are placed in 12 expression positions; an independent substitution over the flattened token sequence must occur contiguously in the body of every impl the instruction applies to.",
+    TB + "; the designated path for ~ per position is transcribed from the property text and README", "DESIGN.md 3/C10")
+add("C18", "X", "differential testing of two builds (syn1 vs syn2 back-end) over generated corpora",
+    "Exploration: each generated input is expanded by two separately built binaries (o2o-impl feature syn / syn2); verdict, token strings and the set of o2o diagnostics must agree.",
+    TB + "; dump-syn1 / dump-syn2 are built from the same dump_common.rs", "DESIGN.md 3/C18")
+
 NOT_YET = {
 }
 
